@@ -2830,18 +2830,17 @@ TARGETS += [
                        "the block assignments `D[0:M, 0:N] = max(|Sb - Tb|, |Sd - Td|)`, `D[0:M, N::]` / `D[M::, 0:N]` = inf with "
                        "`0.5 * (death - birth)` on the diagonal, zeros elsewhere, read entry by entry: the model's `augD`")]),
     dict(file="wasserstein", func="wasserstein", lean="aug_entry", region="range_in", skeleton_mode="before",
-         first="DUL = np.sqrt(np.sum((S[:, None, :] - T[None, :, :]) ** 2, axis=2))", last="D[M:N + M, 0:N] = UL", count=15,
+         first="DUL = np.sqrt(np.sum((S[:, None, :] - T[None, :, :]) ** 2, axis=2))", last="D[M:N + M, 0:N] = UL", count=10,
          matrix="D", pyparams=["dgm1", "dgm2", "matching"],
-         variables="[Add α] [Sub α] [Mul α] [Neg α] [Zero α]", fparams=[("sqrt", "α → α"), ("cp sp", "α")],
+         variables="[Add α] [Sub α] [Mul α] [Div α] [Zero α] [OfNat α 2]", fparams=[("sqrt", "α → α")],
          result="Option α", fin="some %s", top="none",
-         mcalls={"np.sqrt": ("fn1", "sqrt"), "np.sum": ("sum_axis2",), "np.zeros": ("zeros",),
-                 "np.cos": ("param", "cp", "np.cos(np.pi / 4)"), "np.sin": ("param", "sp", "np.sin(np.pi / 4)"),
-                 "np.array": ("array22",)},
+         mcalls={"np.sqrt": ("fn1", "sqrt"), "np.sum": ("sum_axis2",), "np.zeros": ("zeros",)},
          skeleton="...", skeleton_after=WS_AFTER_SKELETON, after_engine=True,
          obligations=[("src_aug_entry_eq_model", "", "aug_entry (α := α) = augEntry", "rfl",
-                       "`DUL` from the coordinate differences, the rotation by `R = [[cp, -sp], [sp, cp]]`, the three block "
-                       "assignments with the rotated second coordinate on the diagonals, read entry by entry: the model's "
-                       "`augEntry` (`cp`, `sp` = `cos(pi/4)`, `sin(pi/4)` are parameters of the model)")]),
+                       "`DUL` from the coordinate differences, the three block assignments with "
+                       "`(S[:, 1] - S[:, 0]) / np.sqrt(2)` / `(T[:, 1] - T[:, 0]) / np.sqrt(2)` on the diagonals (the /repo fix of the "
+                       "diagonal cost: no rotation by pi/4, no `np.cos` / `np.sin` / `.dot` in the table any more), read entry by "
+                       "entry: the model's `augEntry`")]),
 ]
 
 FILES = {
